@@ -291,8 +291,8 @@ mod __verif_native_bin {
                     Ok(ok) => { check(ok, "C03.pending_c_strings_relocated", || show_op("")); }
                     Err(e) => { check(false, "C03.state_after_operation_serializes", || show_op(&e)); }
                 }
-                if wi % 7 == 0 && oi % 3 == 0 {
-                    for op2 in os.iter().step_by(5) {
+                if (thorough() && oi % 2 == 0) || (wi % 7 == 0 && oi % 3 == 0) {
+                    for op2 in os.iter().step_by(if thorough() { 2 } else { 5 }) {
                         let (mut a2, mut m2) = (w.build(), w.clone());
                         if apply(&mut a2, &mut m2, *op).is_err() { continue; }
                         match apply(&mut a2, &mut m2, *op2) {
